@@ -50,7 +50,11 @@ def run_batch(requests, jobs=None):
     """Send the request objects to the driver; returns the list of response objects."""
     if not requests:
         return []
-    if not os.path.exists(DRIVER):
+    for _ in range(60):                      # the binary is briefly absent while `lake build` relinks it
+        if os.path.exists(DRIVER):
+            break
+        time.sleep(1)
+    else:
         raise InfraError(f'driver not built: {DRIVER}')
     jobs = jobs or min(16, max(1, len(requests) // 200))
     lines = [json.dumps(r, ensure_ascii=False, separators=(',', ':')) for r in requests]
